@@ -154,7 +154,13 @@ class World:
         elif k == "tuple":
             out = tuple[tuple(self.typ(x) for x in spec["items"])]
         elif k == "union":
-            out = typing.Union[tuple(self.typ(x) for x in spec["items"])]
+            if spec.get("pep604"):  # X | Y (types.UnionType), not typing.Union[X, Y]
+                import functools
+                import operator
+
+                out = functools.reduce(operator.or_, [self.typ(x) for x in spec["items"]])
+            else:
+                out = typing.Union[tuple(self.typ(x) for x in spec["items"])]
         elif k == "listof":
             out = list[self.typ(spec["item"])]
         elif k == "dictof":
